@@ -47,7 +47,8 @@ ASSUMPTIONS = [
     "thin-vial limit |T[0]-mean| <= C*Bi and O(dt) agreement of solidification times are NOT theorems: they are "
     "evaluated on paired real runs (monitored clauses thin_limit, tsol_agree)",
     "2D vs 1D agreement of whole trajectories (different dt) is evaluated on paired runs with a 0.25 K tolerance in the "
-    "cooling stage; the exact statement is the one-step theorem",
+    "cooling stage and, after nucleation, 2 K up to a time shift of 2 % of the time since nucleation (the two time "
+    "lines legitimately differ by 1-2 %); the exact statement is the one-step theorem",
 ]
 RULE = ("paired real runs: 2D shelf/VISF vs 1D of equal cross-section (radial spread at every reported time, column "
         "gap, evaporative flux actually applied vs the liquid law), Snowflake 1x1x1 (direct, controlled nucleation at "
@@ -209,15 +210,30 @@ def run_impl(case):
         tn2 = t2[o2["rows"].index(o2["iSaveEnd"])]
         tn1 = t1[min(inuc1, len(t1) - 1)]
         late = []
+
+        def col1_at(tq):
+            b = int(np.searchsorted(t1[inuc1 + 1:], tq)) + inuc1 + 1
+            if b <= inuc1 + 1 or b >= len(t1):
+                return None
+            lam = (tq - t1[b - 1]) / (t1[b] - t1[b - 1]) if t1[b] > t1[b - 1] else 0.0
+            return (1 - lam) * T1[b - 1] + lam * T1[b]
+
+        # The two models run with different time steps and different quadratures of the nucleation
+        # hazard, so their timelines after nucleation legitimately differ by 1-2 % (t_sol agrees to
+        # ~1.5 %); when the freezing front reaches the top the temperature changes by K/s.  The gap
+        # is therefore taken up to a time shift of at most 2 % of the time elapsed since nucleation.
         for a, tt in enumerate(t2):
             if o2["rows"][a] <= o2["iSaveEnd"] or tt < max(tn1, tn2) + 5.0:
                 continue
-            b = int(np.searchsorted(t1[inuc1 + 1:], tt)) + inuc1 + 1
-            if b <= inuc1 + 1 or b >= len(t1):
-                continue
-            lam = (tt - t1[b - 1]) / (t1[b] - t1[b - 1]) if t1[b] > t1[b - 1] else 0.0
-            col1 = (1 - lam) * T1[b - 1] + lam * T1[b]
-            late.append((float(np.max(np.abs(T2[a] - col1[:, None]))), float(tt)))
+            best = None
+            for sh in np.linspace(-0.02, 0.02, 9):
+                c1 = col1_at(tt + sh * (tt - max(tn1, tn2)))
+                if c1 is None:
+                    continue
+                g = float(np.max(np.abs(T2[a] - c1[:, None])))
+                best = g if best is None else min(best, g)
+            if best is not None:
+                late.append((best, float(tt)))
         gl = max(late) if late else (0.0, 0.0)
         return {"raise": None, "gap_cooling": max(gaps) if gaps else 0.0, "n_compared": len(gaps),
                 "gap_late": gl[0], "gap_late_t": gl[1], "n_late": len(late),
@@ -303,7 +319,7 @@ def predicates(case, impl):
             out.append(Failure(clause="column_eq_1D", key=f"column_eq_1D|_run_2D|{case['config']}",
                                detail=f"2D columns differ from the 1D model of equal cross-section by "
                                       f"{impl['gap_cooling']:.3f} K in the cooling stage"))
-        if impl.get("gap_late", 0.0) > 3.0:
+        if impl.get("gap_late", 0.0) > 2.0:
             out.append(Failure(clause="column_eq_1D_late", key=f"column_eq_1D_late|_run_2D|{case['config']}",
                                detail=f"after nucleation the 2D columns differ from the 1D model of equal cross-section "
                                       f"by {impl['gap_late']:.2f} K (reported time {impl['gap_late_t']:.1f} s)"))
